@@ -6,6 +6,7 @@ import asyncio
 from .. import core, qeval, qpool
 
 LEVEL = "proof"
+READY = True
 CLAIM = {
     "text": "Lean theorems: asynchronous evaluation is modelled as the resumption (coroutine) monad over the same evaluator; running a resumption computation equals the "
             "plain computation (run_lift, run_bind: every await point is transparent), an item getter that returns the same items changes nothing, and several evaluations "
